@@ -98,6 +98,7 @@ type cCfg struct {
 	MinS, MaxS, Preview int
 	Cont                bool
 	MinDiskMB           uint64
+	Amp                 int      // how much warmer than the scene the blob is
 	MotionKeys          []string // "key = value" lines of [thermal-motion]
 	Exp                 goconfig.ThermalMotion
 	ThrOn               bool
@@ -220,6 +221,7 @@ func genCfg(r *verifsim.Run, focus string) cCfg {
 	c.MaxS = c.MinS + r.Draw(3)
 	c.Cont = r.Chance(1, 2)
 	c.Exp = goconfig.DefaultThermalMotion(c.Model)
+	c.Amp = 400
 	set := func(key string, val interface{}) {
 		c.MotionKeys = append(c.MotionKeys, fmt.Sprintf("%s = %v", key, val))
 	}
@@ -227,10 +229,17 @@ func genCfg(r *verifsim.Run, focus string) cCfg {
 	if !r.Chance(1, 6) {
 		c.Exp.DynamicThreshold = r.Chance(1, 4)
 		set("dynamic-threshold", c.Exp.DynamicThreshold)
-		c.Exp.TempThresh = uint16(r.Range(2800, 3000))
-		set("temp-thresh", c.Exp.TempThresh)
-		c.Exp.DeltaThresh = uint16(r.Range(5, 60))
-		set("delta-thresh", c.Exp.DeltaThresh)
+		// each threshold may be left to the model's default (they differ between Lepton 3 and 3.5)
+		if r.Chance(4, 5) {
+			c.Exp.TempThresh = uint16(r.Range(2800, 3000))
+			set("temp-thresh", c.Exp.TempThresh)
+		}
+		if r.Chance(4, 5) {
+			c.Exp.DeltaThresh = uint16(r.Range(5, 60))
+			set("delta-thresh", c.Exp.DeltaThresh)
+		} else {
+			c.Amp = r.OneOf(400, 120) // between the two models' default delta-thresh, or above both
+		}
 		c.Exp.CountThresh = r.Range(1, 3)
 		set("count-thresh", c.Exp.CountThresh)
 		c.Exp.FrameCompareGap = r.Range(1, 4)
@@ -304,7 +313,9 @@ func genCfg(r *verifsim.Run, focus string) cCfg {
 			c.WinStart, c.WinStop = localHHMM(r.Range(0, 2)), "00:00"
 		}
 		if r.Chance(1, 4) {
-			c.MinDiskMB = 1000000000 // more than any disk has: the real free-space check refuses
+			// more than any disk has: the real free-space check refuses. Values whose byte count does not
+			// fit 64 bits are legal settings too (the comparison is in MB).
+			c.MinDiskMB = []uint64{1000000000, 1000000000, 1 << 44, 1 << 50, 1 << 62, 1<<63 - 1, 3 << 43}[r.Draw(7)]
 		}
 	case "C05", "C06":
 		c.ThrOn = !r.Chance(1, 5)
@@ -315,6 +326,56 @@ func genCfg(r *verifsim.Run, focus string) cCfg {
 				c.MinS, c.MaxS = 1, c.MaxS+1
 			}
 		}
+	}
+	return c
+}
+
+// remodel: the same config.toml with a camera of another model (and possibly another resolution and
+// frame rate) behind it.
+func remodel(r *verifsim.Run, c cCfg) cCfg {
+	orig := c
+	old := c.Exp
+	models := []string{lepton3.Model, lepton3.Model35, "boson"}
+	c.Model = models[r.Draw(3)]
+	c.Exp = goconfig.DefaultThermalMotion(c.Model)
+	for _, kv := range c.MotionKeys {
+		switch strings.TrimSpace(strings.SplitN(kv, "=", 2)[0]) {
+		case "dynamic-threshold":
+			c.Exp.DynamicThreshold = old.DynamicThreshold
+		case "temp-thresh":
+			c.Exp.TempThresh = old.TempThresh
+		case "delta-thresh":
+			c.Exp.DeltaThresh = old.DeltaThresh
+		case "count-thresh":
+			c.Exp.CountThresh = old.CountThresh
+		case "frame-compare-gap":
+			c.Exp.FrameCompareGap = old.FrameCompareGap
+		case "use-one-diff-only":
+			c.Exp.UseOneDiffOnly = old.UseOneDiffOnly
+		case "warmer-only":
+			c.Exp.WarmerOnly = old.WarmerOnly
+		case "trigger-frames":
+			c.Exp.TriggerFrames = old.TriggerFrames
+		case "edge-pixels":
+			c.Exp.EdgePixels = old.EdgePixels
+		case "temp-thresh-min":
+			c.Exp.TempThreshMin = old.TempThreshMin
+		case "temp-thresh-max":
+			c.Exp.TempThreshMax = old.TempThreshMax
+		case "verbose":
+			c.Exp.Verbose = old.Verbose
+		default:
+			panic("remodel: unknown thermal-motion key in " + kv)
+		}
+	}
+	if r.Chance(1, 2) {
+		c.W, c.H = r.Range(4, 10), r.Range(4, 8)
+	}
+	if r.Chance(1, 2) {
+		c.Fps = r.OneOf(1, 2, 3, 5, 9, 9)
+	}
+	if c.Preview*c.Fps+c.Exp.TriggerFrames == 0 || 2*c.Exp.EdgePixels+2 > c.W || 2*c.Exp.EdgePixels+2 > c.H {
+		return orig // the new defaults do not fit this scenario: keep the camera
 	}
 	return c
 }
@@ -342,7 +403,7 @@ func (s *cScene) next(kind byte, move bool) cEvent {
 		n := 0
 		for y := c.Exp.EdgePixels; y < c.H-c.Exp.EdgePixels && n < 4; y++ {
 			for x := c.Exp.EdgePixels; x < c.W-c.Exp.EdgePixels && n < 4; x++ {
-				p[y][x] = s.base + 400
+				p[y][x] = s.base + uint16(c.Amp)
 				n++
 			}
 		}
@@ -469,8 +530,8 @@ func (cn *cConn) describe() string {
 	for _, e := range cn.Ev {
 		b = append(b, e.Kind)
 	}
-	return fmt.Sprintf("%s %dx%d@%d serial%d fw%q dev%d/%dB min%d max%d preview%d cont=%v thr=%v loc=%v motion{%s} chunks%v cut%d ev=%s",
-		c.Model, c.W, c.H, c.Fps, c.Serial, c.Firmware, c.DeviceID, len(c.DeviceName), c.MinS, c.MaxS, c.Preview, c.Cont, c.ThrOn, c.HasLoc, strings.Join(c.MotionKeys, "; "), cn.Chunks, cn.CutAt, b)
+	return fmt.Sprintf("%s %dx%d@%d amp%d serial%d fw%q dev%d/%dB min%d max%d preview%d cont=%v thr=%v loc=%v motion{%s} chunks%v cut%d ev=%s",
+		c.Model, c.W, c.H, c.Fps, c.Amp, c.Serial, c.Firmware, c.DeviceID, len(c.DeviceName), c.MinS, c.MaxS, c.Preview, c.Cont, c.ThrOn, c.HasLoc, strings.Join(c.MotionKeys, "; "), cn.Chunks, cn.CutAt, b)
 }
 
 func defaultMotionFor(model string) goconfig.ThermalMotion {
@@ -1051,6 +1112,11 @@ func runCE2E(r *verifsim.Run) {
 		cfg := genCfg(r, r.Prop)
 		if i > 0 && r.Chance(1, 2) {
 			cfg = sc.Conns[0].Cfg // same camera reconnects
+			if r.Chance(1, 2) {
+				// ... or another camera is plugged in while the daemon keeps running (config.toml untouched, the
+				// Config object is re-used): keys absent from the file take the defaults of the *new* model
+				cfg = remodel(r, cfg)
+			}
 		}
 		if r.Prop == "C14" {
 			cfg.Cont = true
